@@ -131,6 +131,10 @@ def run_case(ctx, k, rng):
     ctx.check("d^2 == k(F,F)+k(G,G)-2k(F,G)", abs(v * v - r2) <= tol2, got_sq=v * v, ref_sq=r2, tol2=tol2)
     if style == "reorder":
         ctx.check("reorder=>0", v * v <= tol2, got=v, tol2=tol2)
+        if len(F) <= 100:
+            vs = d(F, F)                             # the very same object on both sides
+            _, tss = ref_d2(F, F, sigma)
+            ctx.check("the same array as both arguments => 0", fin(vs) and float(vs) ** 2 <= tss, got=vs, tol2=tss)
 
     if max(len(F), len(G)) > 100:
         return          # large diagrams: the value clauses above are what they are for (python double loop: seconds per call)
